@@ -246,6 +246,9 @@ class RT:
         self.left, self.abbr, self.right, self.back, self.opts = left, abbr, right, back, opts
         self.lkind, self.rkind = lkind, rkind
 
+    def __repr__(self):
+        return '(%r, %r, %r)' % (self.line, self.pos, self.opts)
+
     @property
     def line(self):
         return self.left + self.abbr + self.right
@@ -487,6 +490,28 @@ def rt_cases(rng, abbr, markup, budget):
         look = rng.random() < 0.5
         out.append(RT(before + p, abbr, right, 0, {'type': ty, 'lookAhead': look, 'prefix': p}, 'prefix', rk))
     return out
+
+
+def gen_tag(rng):
+    """a (mostly) complete HTML tag, for the is_html stream"""
+    nm = rng.choice(['div', 'a', 'br', 'foo-bar', 'ns:el', 'h1', 'x'])
+    if rng.random() < 0.2:
+        return '</' + nm + rng.choice(['', ' ', '\t']) + '>'
+    s = '<' + nm
+    for _ in range(rng.randint(0, 3)):
+        s += rng.choice([' ', '  ', '\t', ' \t'])
+        an = rng.choice(['a', 'title', 'data-x', 'x:y', 'b1'])
+        r = rng.random()
+        if r < 0.25:
+            s += an
+        elif r < 0.5:
+            s += an + '=' + rng.choice(['b', 'c1', 'x-y', '^b$', 'a]$', '{c}', '(d)', '/e', 'f/', 'привет', 'a>b', 'a<b', '[q', 'é'])
+        elif r < 0.85:
+            s += an + '="' + rng.choice(['', 'b', 'b c', '<>', "it's", 'a=b', '\\', 'x\\', '{', ']']) + '"'
+        else:
+            s += an + "='" + rng.choice(['', 'b', 'b c', '"', '>', 'a=']) + "'"
+    s += rng.choice(['', '', ' ', '\t', '/', ' /'])
+    return s + '>'
 
 
 # consistency stream
